@@ -16,6 +16,7 @@ def parseOp? (tok : String) : Option Op :=
   | ["set", k, t, w, v] => do pure (.set (← k.toNat?) (← t.toNat?) (← parseB? w) (← v.toInt?))
   | ["m", l, pk, t, a, b, p, m] =>
     do pure (.merge (← parseB? l) ⟨← pk.toNat?, ← t.toNat?, ← parseOptInt' a, ← parseOptInt' b, ← parseB? p, ← parseB? m⟩)
+  | ["del", k, t] => do pure (.del (← k.toNat?) (← t.toNat?))
   | ["flush"] => some .flush
   | _ => none
 
@@ -26,25 +27,26 @@ def showOI : Option Int → String
   | some v => toString v
   | none => "N"
 
-def showOut : Out × Nat → String
-  | (.merged nw t a b d, q) =>
+def showOut : Out × Nat × Bool → String
+  | (.merged nw t a b d, q, x) =>
     "M" ++ (if nw then "1" else "0") ++ ":" ++ toString t ++ ":" ++ showOI a ++ ":" ++ showOI b ++ ":" ++ (if d then "1" else "0") ++ ":" ++ toString q
-  | (.error, _) => "E"
-  | (.skip, _) => "."
+      ++ ":" ++ (if x then "1" else "0")
+  | (.error, _, _) => "E"
+  | (.skip, _, _) => "."
 
 def showDb (n : Nat) (st : St) : String :=
   " ".intercalate ((List.range n).filterMap (fun k => (st.db k).map (fun r => toString k ++ "=" ++ toString r.1 ++ "/" ++ toString r.2)))
 
-/-- `run <n> <final flush 0|1> <ops>` -/
+/-- `run <n> <autoflush 0|1> <final flush 0|1> <ops>` -/
 def handle : List String → String
-  | ["run", n, ff, ops] =>
-    match n.toNat?, parseB? ff, parseOps? ops with
-    | some n, some ff, some os =>
+  | ["run", n, af, ff, ops] =>
+    match n.toNat?, parseB? af, parseB? ff, parseOps? ops with
+    | some n, some af, some ff, some os =>
       if os.all (opOk n) then
-        ";".intercalate ((outs n St.init os).map showOut) ++ " | " ++
-          showDb n (run n St.init (if ff then os ++ [.flush] else os))
+        ";".intercalate ((outs af n St.init os).map showOut) ++ " | " ++
+          showDb n (run af n St.init (if ff then os ++ [.flush] else os))
       else "bad-op"
-    | _, _, _ => "bad-op"
+    | _, _, _, _ => "bad-op"
   | _ => "bad-op"
 
 end SaVerif.Drv.Merge
